@@ -154,6 +154,70 @@ def derive(w, route):
     w.claim('source children untouched', all(len(k.refs) == 0 for k in kids))
 
 
+EXOTIC_ROUTES = ['begin_parse', 'to_slice', 'Slice.from_cell', 'copy', 'begin_parse.to_cell', 'begin_parse.copy', 'loaded_slice.to_cell',
+                 'loaded_slice.copy', 'begin_parse.load_hashmap_aug_e', 'begin_parse.to_cell.begin_parse']
+
+
+def _exotic_cell(w, kind):
+    from pytoniq_core.boc.cell import Cell
+    from pytoniq_core.boc.tvm_bitarray import TvmBitarray
+    if kind == 'library':
+        data, kids, t = E.lit('00000010') + w.bits('lib', 256), [], 2
+    elif kind == 'pruned':
+        data, kids, t = E.lit('00000001') + E.lit('00000001') + w.bits('ph', 256) + w.bits('pd', 16), [], 1
+    else:
+        kid = abstract_child(w, 'mk')[0]
+        w.assume(kid._depths[0] <= 1000)
+        data, kids, t = E.lit('00000011') + w.bits('vh', 256) + w.bits('vd', 16), [kid], 3
+    return Cell(w.mk_bitarray(TvmBitarray, data, 1023), list(kids), t), data, kids
+
+
+@obligation('C08.derive.exotic', 'C08', cases=[{'route': r, 'kind': k} for r in EXOTIC_ROUTES for k in ('library', 'pruned', 'merkle_proof')],
+            fuc=[C + 'begin_parse', C + 'to_slice', C + 'copy', S + 'from_cell', S + 'to_cell', S + 'copy', S + 'load_hashmap_aug_e'],
+            descr='the derivation routes open to EXOTIC cells (library, pruned branch, Merkle proof; incl. the dictionary loader that hands '
+                  'a special slice back as a cell): every object of the route owns its containers, and consuming reads on the slices '
+                  'afterwards change neither the source cell nor the cells derived from those slices')
+def derive_exotic(w, route, kind):
+    from pytoniq_core.boc.slice import Slice
+    c, data, kids = _exotic_cell(w, kind)
+    snap = Snap(w, c)
+    chain = [c]
+    cur = c
+    if route == 'Slice.from_cell':
+        cur = Slice.from_cell(c)
+        chain.append(cur)
+    elif route.startswith('loaded_slice.'):
+        s0 = c.begin_parse()
+        call(s0.load_bits, 8)
+        chain.append(s0)
+        k, cur = call(getattr(s0, route.split('.')[1]))
+        if k != 'ok':
+            # a partly consumed exotic slice need not denote a valid exotic cell (its level-mask byte is gone): refusing is fine
+            w.claim('source cell untouched', snap.unchanged())
+            return
+        chain.append(cur)
+    else:
+        for st in route.split('.'):
+            if st == 'load_hashmap_aug_e':
+                k, nxt = call(cur.load_hashmap_aug_e, 32, lambda x: x, lambda x: x)
+            else:
+                k, nxt = call(getattr(cur, st))
+            w.claim(f'{st} succeeds', k == 'ok')
+            if k != 'ok':
+                return
+            cur = nxt
+            chain.append(cur)
+    for i in range(len(chain)):
+        for j in range(i + 1, len(chain)):
+            w.claim(f'object {j} of the route shares no container with object {i}', _disjoint(chain[i], chain[j]))
+    derived_cells = [(o, Snap(w, o)) for o in chain[1:] if type(o).__name__ == 'Cell']
+    for o in reversed(chain[1:]):
+        _mutate(w, o)
+    w.claim('source cell untouched after consuming reads on everything derived from it', snap.unchanged())
+    for o, sn in derived_cells:
+        w.claim('a cell derived from a slice is untouched by later reads on that slice', sn.unchanged())
+
+
 CELL_METHODS = ['hash', 'get_hash', 'get_depth', 'get_data_bytes', 'get_descriptors', 'get_representation',
                 'calculate_representation_hash', 'begin_parse', 'copy', 'to_builder', 'to_slice', '__eq__', '__hash__', 'data',
                 '__getitem__', '__repr__', 'serialize', 'resolve_mask', 'get_refs_descriptor', 'get_bits_descriptor']
